@@ -1,4 +1,10 @@
 """C02 - encoding is the exact inverse of decoding and writes only its own bits."""
+import collections
+import collections.abc
+import types
+
+import canmatrix.canmatrix as cm
+
 from lib import frames as F
 
 PID = "C02"
@@ -9,12 +15,116 @@ RULE = ("case 'enc' = (frame 1..64 bytes, 1..8 pairwise non-overlapping in-frame
         "Every decode/encode is observed on objects with a history: the first use of a frame is made with its signals somewhere else "
         "(then moved into place by assignment), each call is repeated, and once more after another detour; an encode request is also "
         "made with one values dict used for several selector values. A result that depends on that history is a failure. "
+        "Names: 45 % of the frames name their signals from families of names that are different strings but easy to mistake for "
+        "each other (upper/lower case, casefold-equal, Unicode composed/decomposed, blanks at the ends, '_' and digit variants, one "
+        "a prefix of the other), at least two of a family in one frame where the frame has two signals; the other frames keep s0..s7. "
+        "Keys: 35 % of the encode requests carry 1..3 further keys that name no signal of the frame (variants of its names, names "
+        "of family members that are absent, keys that are no text: int, None, bytes, tuple) with non-zero values - a signal is "
+        "supplied iff a key EQUALS its name, so these must not write a bit. Every request is also made with the keys in reverse "
+        "order, with a read-only mapping or a Mapping that is no dict (None for an empty request), and through CanMatrix.encode of a "
+        "matrix that holds a second frame with the same signal names at other bits (used first); the caller's dict must be unchanged "
+        "afterwards; decode-then-encode is repeated through CanMatrix.decode/encode of such a matrix. A result that depends on any of "
+        "these is a failure. "
         "30 % of the frames carry signals with offset, limits and start values (start value raw != 0); decoded values are kept while other payloads are decoded before they are re-encoded. Non-trivial = distinct case with at least one supplied non-zero value / non-constant payload.")
 PARTIAL = ["struct.pack rounding for floats is trusted: float values are supplied as exactly representable non-NaN patterns",
            "value-table labels in the data dict go through phys2raw (C04) and are not generated here"]
-ASSUMPTIONS = ["signals pairwise non-overlapping and inside the frame", "signal names unique within a frame"]
+ASSUMPTIONS = ["signals pairwise non-overlapping and inside the frame",
+               "signal names unique within a frame as strings (names are case sensitive: 'Speed' and 'speed' are two signals); "
+               "a key of the values dict supplies a signal iff it equals the signal's name"]
 TRUSTED = ["CPython str.format('{:0{}b}'), list slice assignment, itertools grouper semantics as modelled in Model/Codec.lean"]
 CORRESPONDENCE = "Frame.encode (+ decode of its output) == CanVerif.Frame.encode"
+
+# families of signal names: pairwise different strings (so all of them may live in one frame), easy to mistake for each other
+NAME_FAMILIES = [
+    ["Speed", "speed", "SPEED", "sPEED", "Speed_", "_Speed", "Spee", "Speed2"],
+    ["EngTemp", "Eng_Temp", "engtemp", "ENGTEMP", "Eng", "EngTemp_raw", "eng_temp"],
+    ["v1", "V1", "v01", "v10", "v1_", "v_1", "v"],
+    ["Mode", "Mode ", " Mode", "mode", "MODE", "Mode\t", "Mo de"],
+    ["Stra\u00dfe", "STRASSE", "strasse", "Strasse", "stra\u00dfe", "STRA\u1e9eE"],          # casefold-equal, lower()-different
+    ["Caf\u00e9", "Cafe\u0301", "CAF\u00c9", "cafe\u0301", "Cafe", "caf\u00e9"],            # composed / decomposed
+    ["Id", "id", "ID", "\u0131d", "\u0130d", "iD"],                                             # dotless / dotted i
+    ["K1", "k1", "\u212a1", "K\uff11", "K_1"],                                                  # Kelvin sign, full-width digit
+    ["0", "00", "\uff10", "0x0", "O"],
+    ["None", "none", "NONE", "null", "True", "true"],
+]
+_FAMILY_OF = {}
+for _fam in NAME_FAMILIES:
+    assert len(set(_fam)) == len(_fam)
+    for _n in _fam:
+        _FAMILY_OF.setdefault(_n, _fam)
+
+
+def confusable_names(rng, sigs):
+    """rename the signals (in place) with members of one or two families; the rest keep their plain names"""
+    fams = rng.sample(NAME_FAMILIES, 2 if rng.random() < 0.3 else 1)
+    pool = []
+    for fam in fams:
+        m = list(fam)
+        rng.shuffle(m)
+        pool += m[:rng.randint(2, len(m))]
+    idx = list(range(len(sigs)))
+    rng.shuffle(idx)
+    for i, nm in zip(idx, pool):
+        sigs[i][0] = nm
+    assert len({d[0] for d in sigs}) == len(sigs)
+
+
+def name_variants(name):
+    out = [name.upper(), name.lower(), name.swapcase(), name.casefold(), name.title(), name + " ", " " + name, name + "_", "_" + name,
+           name[:-1], name[1:], name + "0", name.strip(), name.replace("_", ""), name + "\n", name * 2]
+    return [v for v in out if v and v != name]
+
+
+def foreign_key(rng, fd):
+    """a key (in the transport form of 'x') that equals no signal name of the frame"""
+    names = [d[0] for d in fd["sigs"]]
+    c = rng.random()
+    if c < 0.25:
+        return rng.choice([["i", 0], ["i", 1], ["i", rng.randrange(len(names))], ["n"], ["b", rng.choice(names)],
+                           ["t", [rng.choice(names)]], ["t", [rng.choice(names), 0]]])
+    base = rng.choice(names)
+    cands = name_variants(base)
+    if base in _FAMILY_OF:
+        cands = cands + _FAMILY_OF[base] * 2
+    if c < 0.35:
+        cands = ["x", "signal", "F", "F." + base, ""]
+    k = rng.choice(cands)
+    return None if k in names else ["s", k]
+
+
+def key_of(ks):
+    t = ks[0]
+    if t == "s":
+        return ks[1]
+    if t == "i":
+        return ks[1]
+    if t == "n":
+        return None
+    if t == "b":
+        return ks[1].encode("utf-8")
+    if t == "t":
+        return tuple(ks[1])
+    raise ValueError("unknown key form %r" % (ks,))
+
+
+class PlainMapping(collections.abc.Mapping):
+    """a Mapping that is not a dict (the type the API documents)"""
+
+    def __init__(self, items):
+        self._keys = [k for k, _ in items]
+        self._vals = [v for _, v in items]
+
+    def __getitem__(self, k):
+        for a, v in zip(self._keys, self._vals):
+            if type(a) is type(k) and a == k:
+                return v
+        raise KeyError(k)
+
+    def __iter__(self):
+        return iter(list(self._keys))
+
+    def __len__(self):
+        return len(self._keys)
 
 
 def gen_frame(rng):
@@ -24,13 +134,25 @@ def gen_frame(rng):
         fd["sc"] = True          # signals with physical scaling, limits and start values (no business of the raw codec)
     if rng.random() < 0.2:
         fd["j"] = True           # flagged as a J1939 frame
+    if rng.random() < 0.45:
+        confusable_names(rng, fd["sigs"])
     return fd
 
 
 def enc_case(rng, fd):
     sup = [d for d in fd["sigs"] if rng.random() < 0.75]
     rng.shuffle(sup)
-    return {"op": "enc", "c": {"f": fd, "d": [[d[0], F.rand_raw(rng, d)] for d in sup]}}
+    c = {"f": fd, "d": [[d[0], F.rand_raw(rng, d)] for d in sup]}
+    if rng.random() < 0.35:
+        # keys that name no signal of this frame, with values that would show
+        x = []
+        for _ in range(rng.randint(1, 3)):
+            ks = foreign_key(rng, fd)
+            if ks is not None and ks not in [k for k, _ in x]:
+                x.append([ks, rng.choice([1, -1, 255, 0x5A5A, rng.getrandbits(rng.randint(1, 63)) | 1])])
+        if x:
+            c["x"] = x
+    return {"op": "enc", "c": c}
 
 
 def gen(rng, tier, shard, nshards):
@@ -70,12 +192,69 @@ def neighbours(case, rng, shard, nshards):
             yield {"op": "decenc", "c": {"f": fd, "data": F.rand_payload(rng, fd["size"])}}
 
 
+def _values(fr, pairs):
+    """the values dict of a request as a list of items (float signals get the float of their pattern, as in lib.frames)"""
+    items = []
+    for k, v in pairs:
+        sg = fr.signal_by_name(k) if isinstance(k, str) else None
+        if sg is not None and sg.is_float:
+            v = F.pattern_to_float(sg.size, v)
+        items.append((k, v))
+    return items
+
+
+def _sibling(fd):
+    """a second frame (one byte) with the same signal names, every signal one bit wide"""
+    sigs = [F.sigdesc(d[0], (3 * i + 1) % 8, 1, True) for i, d in enumerate(fd["sigs"])]
+    return F.mkframe({"size": 1, "sigs": sigs}, name="G", arbid=0x124)
+
+
+def _matrix(fr, fd):
+    db = cm.CanMatrix()
+    db.add_frame(_sibling(fd))
+    db.add_frame(fr)
+    return db
+
+
+def _other_ways(fr, fd, items, want):
+    """the same request through the other ways the public API offers; None if all of them give `want`"""
+    def call(f, arg):
+        try:
+            return list(f(arg))
+        except Exception as e:  # noqa
+            return "raised " + F.errname(e)
+    if len(items) > 1 and call(fr.encode, collections.OrderedDict(reversed(items))) != want:
+        return "exc:result-depends-on-the-order-of-the-keys"
+    if not items:
+        if call(fr.encode, None) != want:
+            return "exc:result-differs-without-a-values-dict"
+    elif (len(items) + len(fd["sigs"]) + fd["size"]) % 2:
+        if call(fr.encode, types.MappingProxyType(dict(items))) != want:
+            return "exc:result-differs-for-a-read-only-mapping"
+    elif call(fr.encode, PlainMapping(items)) != want:
+        return "exc:result-differs-for-a-mapping-that-is-no-dict"
+    data = dict(items)
+    before = list(data.items())
+    db = _matrix(fr, fd)
+    sib = db.frames[0]
+    call(lambda d: db.encode(sib.arbitration_id, d), data)      # the frame with the same signal names is used first
+    if call(lambda d: db.encode(fr.arbitration_id, d), data) != want:
+        return "exc:matrix-encode-differs-from-frame-encode"
+    if list(data.items()) != before:
+        return "exc:the-callers-values-dict-was-changed-by-encode"
+    return None
+
+
 def observe(case):
     c = case["c"]
     fr = F.mkframe(c["f"])
     if case["op"] == "enc":
-        r = F.observe_encode(fr, c["d"])
+        pairs = c["d"] + [[key_of(ks), v] for ks, v in c.get("x", [])]
+        r = F.observe_encode(fr, pairs)
         if "ok" in r:
+            odd = _other_ways(fr, c["f"], _values(fr, pairs), r["ok"])
+            if odd is not None:
+                return {"err": odd}
             d = F.observe_decode(fr, r["ok"])
             r["dec"] = d.get("ok", d.get("err"))
         return r
@@ -90,6 +269,18 @@ def observe(case):
         b = fr.encode({k: v.raw_value for k, v in d.items()})
     except Exception as e:  # noqa
         return {"err": F.errname(e)}
+    # ... and the same through the matrix that holds the frame (and a second frame with the same signal names, used first)
+    try:
+        db = _matrix(fr, c["f"])
+        sib = db.frames[0]
+        db.encode(sib.arbitration_id, {k: v.raw_value for k, v in sib.decode(bytes(c["data"][:1])).items()})
+        # (CanMatrix.decode answers {} for a standard identifier in a J1939 matrix: there the frame decodes, the matrix encodes)
+        dd = fr.decode(bytes(c["data"])) if c["f"].get("j") else db.decode(fr.arbitration_id, bytes(c["data"]))
+        b2 = db.encode(fr.arbitration_id, {k: v.raw_value for k, v in dd.items()})
+    except Exception as e:  # noqa
+        return {"err": "exc:matrix-decode-encode-raised-" + F.errname(e)}
+    if list(b2) != list(b):
+        return {"err": "exc:matrix-decode-encode-differs-from-frame-decode-encode"}
     return {"ok": list(b)}
 
 
@@ -102,8 +293,21 @@ def features(case, impl):
     yield "op=" + case["op"]
     yield "nsigs=%d" % len(c["f"]["sigs"])
     yield "len=%d" % c["f"]["size"] if c["f"]["size"] in (1, 8, 64) else "len=other"
+    names = [d[0] for d in c["f"]["sigs"]]
+    plain = not any(n_ in _FAMILY_OF for n_ in names)
+    yield "names=" + ("plain" if plain else "confusable")
+    if not plain:
+        for how, f in (("casefold", str.casefold), ("lower", str.lower), ("strip", str.strip)):
+            if len({f(n_) for n_ in names}) < len(names):
+                yield "names-equal-after=" + how
     if case["op"] == "enc":
         yield "supplied=%d" % len(c["d"])
+        yield "foreign-keys=%d" % len(c.get("x", []))
+        for ks, _ in c.get("x", []):
+            yield "foreign-key=" + {"s": "text", "i": "int", "n": "None", "b": "bytes", "t": "tuple"}[ks[0]]
+        sup = {k for k, _ in c["d"]}
+        if any(a != b and a.casefold() == b.casefold() and (a in sup) != (b in sup) for a in names for b in names):
+            yield "one-of-two-casefold-equal-names-supplied"
         for k, v in c["d"]:
             d = [s for s in c["f"]["sigs"] if s[0] == k][0]
             lo, hi = F.raw_range(d)
@@ -123,13 +327,29 @@ def shrink_candidates(case):
     c = case["c"]
     fd = c["f"]
     if case["op"] == "enc":
+        x = c.get("x", [])
+
+        def mk(fd_, d_, x_):
+            cc = {"f": fd_, "d": d_}
+            if x_:
+                cc["x"] = x_
+            return {"op": "enc", "c": cc}
+        for i in range(len(x)):
+            yield mk(fd, c["d"], x[:i] + x[i + 1:])
         for i in range(len(c["d"])):
-            if len(c["d"]) > 1:
-                yield {"op": "enc", "c": {"f": fd, "d": c["d"][:i] + c["d"][i + 1:]}}
+            if len(c["d"]) > 1 or x:
+                yield mk(fd, c["d"][:i] + c["d"][i + 1:], x)
         names = {k for k, _ in c["d"]}
         keep = [s for s in fd["sigs"] if s[0] in names]
         if len(keep) < len(fd["sigs"]) and keep:
-            yield {"op": "enc", "c": {"f": dict(fd, sigs=keep), "d": c["d"]}}
+            yield mk(dict(fd, sigs=keep), c["d"], x)
+        # signals that are not supplied, one at a time (one of them may be the one that matters)
+        for i, s in enumerate(fd["sigs"]):
+            if s[0] not in names and len(fd["sigs"]) > 1:
+                yield mk(dict(fd, sigs=fd["sigs"][:i] + fd["sigs"][i + 1:]), c["d"], x)
+        for flag in ("sc", "j"):
+            if fd.get(flag):
+                yield mk({k: v for k, v in fd.items() if k != flag}, c["d"], x)
     else:
         for i in range(len(fd["sigs"])):
             if len(fd["sigs"]) > 1:
